@@ -34,7 +34,8 @@ Item(kind, name, vis, recv, trait, flags) ==
    ret_mut |-> "ret_mut" \in flags, direct |-> "direct" \in flags, calls_ctor |-> "calls_ctor" \in flags,
    has_unsafe |-> "has_unsafe" \in flags, in_type_impl |-> "in_type_impl" \in flags,
    field_vis |-> "", for_mut_ref |-> "for_mut_ref" \in flags,
-   writes_field |-> "writes_field" \in flags, mut_self_param |-> "mut_self_param" \in flags]
+   writes_field |-> "writes_field" \in flags, mut_self_param |-> "mut_self_param" \in flags,
+   non_exhaustive |-> "non_exhaustive" \in flags]
 
 Fns(items) == {i \in DOMAIN items : items[i].kind = "fn"}
 
@@ -43,7 +44,8 @@ RuleNames == <<"constructor_applied_outside_guarded_constructors", "unsafe_code_
                "new_unchecked_not_unsafe_or_without_flag_and_feature", "new_unchecked_missing",
                "unexpected_unsafe_function", "mutable_access_to_inner_value", "mutable_view_trait",
                "inner_field_visible", "helper_function_visible", "hidden_module_visible", "reexport_visibility",
-               "inner_field_written_or_mutably_borrowed", "function_takes_mutable_reference_to_the_type">>
+               "inner_field_written_or_mutably_borrowed", "function_takes_mutable_reference_to_the_type",
+               "error_enum_not_exhaustive">>
 
 Rule(n, cfg, items) ==
   CASE n = 1 -> \* the tuple constructor is applied only inside the guarded constructors and the unsafe escape hatch
@@ -69,6 +71,10 @@ Rule(n, cfg, items) ==
     [] n = 13 -> \* no generated function receives a mutable reference to a value of the type (e.g. an overridden
                  \* `Deserialize::deserialize_in_place(de, place: &mut Self)`), which could only serve to change it
                  \A i \in Fns(items) : ~items[i].mut_self_param
+    [] n = 14 -> \* (C07's clause "only declared error variants exist", checked here because it is a fact about the emitted items:)
+                 \* a generated enum is exhaustive - `#[non_exhaustive]` would announce variants no validator declares and
+                 \* forbid the exhaustive match in other crates
+                 \A i \in DOMAIN items : items[i].kind = "enum" => ~items[i].non_exhaustive
 
 Broken(cfg, items) == {n \in DOMAIN RuleNames : ~Rule(n, cfg, items)}
 ApiOK(cfg, items) == Broken(cfg, items) = {}
